@@ -784,7 +784,32 @@ def warm_opcodes():
 
 
 
-def trace_footprint(pf, op, shared=None, root=None, full_every=FULL_EVERY, opcodes=False, cover=None):
+_LOAD_ATTR = [None]
+_CODE_BYTES = {}
+
+
+def loaded_attr(frame):
+    """the attribute name a LOAD_ATTR instruction about to execute loads, else None"""
+    if _LOAD_ATTR[0] is None:
+        import dis
+        _LOAD_ATTR[0] = (dis.opmap.get("LOAD_ATTR"), dis.opmap.get("EXTENDED_ARG"))
+    code = frame.f_code
+    b = _CODE_BYTES.get(id(code))
+    if b is None or b[0] is not code:
+        b = _CODE_BYTES[id(code)] = (code, code.co_code)
+    bc, i = b[1], frame.f_lasti
+    if i < 0 or i + 1 >= len(bc) or bc[i] != _LOAD_ATTR[0][0]:
+        return None
+    arg = bc[i + 1]
+    if i >= 2 and bc[i - 2] == _LOAD_ATTR[0][1]:
+        arg |= bc[i - 1] << 8
+    try:
+        return code.co_names[arg >> 1]          # (the low bit only says "method-style call follows")
+    except IndexError:
+        return None
+
+
+def trace_footprint(pf, op, shared=None, root=None, full_every=FULL_EVERY, opcodes=False, cover=None, attr_reads=None):
     """Run `op` alone under the tracer; returns (raw result, changes, number of line events, scratch
     overwrites) where changes = [(tag, fingerprint), ...] with one entry per CHANGE of the fingerprint
     (first entry = state before the operation).  At every line event the cheap signature is taken;
@@ -830,6 +855,10 @@ def trace_footprint(pf, op, shared=None, root=None, full_every=FULL_EVERY, opcod
             frame_last.clear()
         if cover is not None:
             cover.add((prev[0], prev[1]))
+        if attr_reads is not None and opcodes:
+            a_ = loaded_attr(frame)
+            if a_ is not None:
+                attr_reads.add(a_)
     tr = make_tracer(prefix, on_line, opcodes)
     sys.settrace(tr)
     try:
@@ -1476,3 +1505,99 @@ def solo_pristine(path, op, timeout=60):
     if SOLO_SERVER[0] is None:
         return solo_result(path, op)
     return SOLO_SERVER[0].ask(path, op, None, timeout)
+
+
+# ---------------------------------------------------------------------------------------------
+# native codec stream: the same functions of cencoding / speedups from N threads = the bytes of one thread
+# ---------------------------------------------------------------------------------------------
+
+def codec_stream(seed, n=120):
+    """A deterministic stream of calls of the compiled codec functions (varint, bit packing, RLE/bit-packed hybrid read-back,
+    NumpyIO, thrift write/read of a metadata object through the cdef tables specs/children, utf8 array codecs, byte-array
+    packing) on inputs derived from `seed`, inside the regions the codecs handle correctly (widths <= 8, groups of 8).
+    -> hex digest of everything the calls produced."""
+    import random
+    import numpy as np
+    from fastparquet import cencoding, speedups, parquet_thrift
+    from fastparquet.cencoding import NumpyIO
+    rng = random.Random("codec/%d" % seed)
+    h = hashlib.sha256()
+    bad = 0
+    for it in range(n):
+        kind = it % 5
+        if kind == 0:                                   # varint round trip
+            xs = [rng.randrange(0, 1 << rng.choice([7, 14, 21, 35, 56])) for _ in range(20)]
+            o = NumpyIO(np.zeros(400, dtype=np.uint8))
+            for x in xs:
+                cencoding.encode_unsigned_varint(x, o)
+            b = bytes(o.so_far())
+            i = NumpyIO(np.frombuffer(b, dtype=np.uint8).copy())
+            back = [int(cencoding.read_unsigned_var_int(i)) for _ in xs]
+            bad += back != xs
+            h.update(b + repr(back == xs).encode())
+        elif kind == 1:                                 # bit-packed run written, hybrid reader reads it back
+            w = rng.choice([1, 2, 3, 4, 5, 7, 8])
+            cnt = 8 * rng.randrange(1, 12)
+            vals = np.array([rng.randrange(0, 1 << w) for _ in range(cnt)], dtype=np.int32)
+            o = NumpyIO(np.zeros(cnt * 2 + 32, dtype=np.uint8))
+            cencoding.encode_rle_bp(vals, w, o, 0)
+            b = bytes(o.so_far())
+            src = NumpyIO(np.frombuffer(b + b"\x00" * 8, dtype=np.uint8).copy())
+            out = np.zeros(cnt, dtype=np.uint8)
+            cencoding.read_rle_bit_packed_hybrid(src, w, len(b), NumpyIO(out), 1)
+            bad += not bool((out == vals).all())
+            h.update(b + out.tobytes() + repr(bool((out == vals).all())).encode())
+        elif kind == 2:                                 # thrift object through the cdef tables
+            kv = [parquet_thrift.KeyValue(key=("k%d" % rng.randrange(100)).encode(), value=("v" * rng.randrange(0, 30)).encode())
+                  for _ in range(rng.randrange(1, 5))]
+            se = [parquet_thrift.SchemaElement(name="c%d" % j, type=rng.choice([1, 2, 4, 5, 6]), num_children=None,
+                                               repetition_type=rng.choice([0, 1])) for j in range(rng.randrange(1, 6))]
+            fmd = parquet_thrift.FileMetaData(version=1, schema=se, num_rows=rng.randrange(0, 10 ** 6), row_groups=[],
+                                              key_value_metadata=kv, created_by=b"stream")
+            b = bytes(fmd.to_bytes())
+            back = cencoding.from_buffer(b, "FileMetaData")
+            bad += bytes(back.to_bytes()) != b
+            h.update(b + bytes(back.to_bytes()) + repr(int(back.num_rows)).encode())
+        elif kind == 3:                                 # utf8 array codecs
+            strs = np.array(["".join(rng.choice("abcxyzé中") for _ in range(rng.randrange(0, 12))) for _ in range(30)], dtype=object)
+            enc = speedups.array_encode_utf8(strs)
+            packed = speedups.pack_byte_array(list(enc))
+            back = speedups.unpack_byte_array(np.frombuffer(bytes(packed), dtype=np.uint8).copy(), len(strs), True)
+            bad += list(back) != list(strs)
+            h.update(bytes(packed) + repr(list(back) == list(strs)).encode())
+        else:                                           # boolean bit packing (read_bitpacked1 / write_bitpacked1; not an inverse pair: digest only)
+            cnt = 8 * rng.randrange(1, 20)
+            bits = np.array([rng.randrange(2) for _ in range(cnt)], dtype=np.uint8)
+            o = NumpyIO(np.zeros(cnt // 8 + 8, dtype=np.uint8))
+            cencoding.write_bitpacked1(NumpyIO(bits), cnt, o)
+            b = bytes(o.so_far())
+            out = np.zeros(cnt, dtype=np.uint8)
+            cencoding.read_bitpacked1(NumpyIO(np.frombuffer(b + b"\x00" * 8, dtype=np.uint8).copy()), cnt, NumpyIO(out))
+            h.update(b + out.tobytes() + repr(bool((out == bits).all())).encode())
+    return "%s:%d" % (h.hexdigest()[:24], bad)        # digest : number of round trips that did not give the input back
+
+
+def codec_threads(nthreads, n=120, switch=1e-6):
+    """sequential digests of streams 0..nthreads-1, then the same streams from nthreads real threads behind a barrier
+    -> (sequential, threaded)"""
+    seq = [codec_stream(i, n) for i in range(nthreads)]
+    thr = [None] * nthreads
+    barrier = threading.Barrier(nthreads)
+
+    def body(i):
+        barrier.wait()
+        try:
+            thr[i] = codec_stream(i, n)
+        except BaseException as e:      # noqa
+            thr[i] = "EXC:%s:%s" % (type(e).__name__, str(e)[:80])
+    old = sys.getswitchinterval()
+    ts = [threading.Thread(target=body, args=(i,), daemon=True) for i in range(nthreads)]
+    sys.setswitchinterval(switch)
+    try:
+        for t in ts:
+            t.start()
+        for t in ts:
+            t.join(120)
+    finally:
+        sys.setswitchinterval(old)
+    return seq, thr
